@@ -20,7 +20,7 @@ CHECKS = {
       text="The real airborne_position body is symbolically executed on frames produced by the DO-260B encoder (spec/cpr_spec.py) from two real positions up to 3 NM apart in latitude and 1 NM in longitude; per NL band the VC 'result within one quantisation step of the true position fed to the encoder for the newer frame (longitude modulo 360); None iff the bands differ' is discharged over the reals; cprNL is replaced by its contract NL (proved in C06, with the grid-margin lemma); position() dispatch against opaque callee contracts. Quick explores 10 of the 59 bands, thorough all.",
       ref="DESIGN.md section 5 C03", note=NOTE + " Floats as reals (A2): binary64 rounding inside the decoder is outside the proof; the native cross-check samples it."),
  "C04": dict(cat="proof", tech=TECH % "z3 over linear mixed integer-real arithmetic, one VC per NL band x parity x airborne/surface",
-      text="airborne_position_with_ref and surface_position_with_ref are proved to return a position within one quantisation step of the true position fed to the DO-260B encoder (longitude modulo 360) for every reference inside the closed half-zone box (minus one quantisation step), and the same result for a second, independent reference in that box; position_with_ref dispatch by type code.",
+      text="airborne_position_with_ref and surface_position_with_ref are proved to return a position within one quantisation step of the true position fed to the DO-260B encoder (longitude modulo 360) for every reference inside the closed half-zone box (minus one quantisation step), and the same result for a second, independent reference in that box; position_with_ref dispatch by type code. Frame condition: a decode is still right after earlier decodes by the other and by the same decoder (two-call obligation; no general purity proof, DESIGN A8).",
       ref="DESIGN.md section 5 C04", note=NOTE + " Floats as reals (A2)."),
  "C05": dict(cat="proof", tech=TECH % "z3 / cvc5 over linear mixed integer-real arithmetic, one VC per NL band x band offset x time order x longitude wrap",
       text="surface_position (after the fix of the equator / antimeridian defect F9) is proved to return a position within one quantisation step of the newer frame's true position (longitude modulo 360) for every receiver within 0.74 degree of latitude and 45 NM / 44 degrees of longitude, in any 360-degree representation of the receiver longitude, for pairs up to 0.7 NM apart; None iff the NL bands differ. Quick explores 4 of the 59 bands, thorough all.",
@@ -41,7 +41,7 @@ CHECKS = {
       text="callsign/category/cs20 bodies proved against the six-bit character table for every frame; round trip for all 37^8 legal identifications (symbolic codes) position by position.",
       ref="DESIGN.md section 5 C10"),
  "C12": dict(cat="proof", tech=TECH % "z3",
-      text="Each isNN body is proved equal to an exact boolean contract (status / reserved-bit format rules and plausibility envelope of the register, spec/bds_spec.py), which gives format-soundness and completeness on in-envelope data at once; infer() is proved equal to EMPTY / type-code register / sorted comma-joined set over those contracts for every 112-bit frame and both mrar values; is60's Mach/IAS test uses an uninterpreted MACH2CAS (its equations are C20). is50or60's nearest-vector arbitration goes through numpy (NaN, linalg.norm, nanargmin) and is only checked bounded. Known finding F15 (is50 ignores the roll sign bit) is excluded by its region.",
+      text="Each isNN body is proved equal to an exact boolean contract (status / reserved-bit format rules and plausibility envelope of the register, spec/bds_spec.py), which gives format-soundness and completeness on in-envelope data at once; infer() is proved equal to EMPTY / type-code register / sorted comma-joined set over those contracts for every 112-bit frame and both mrar values; is60's Mach/IAS test uses an uninterpreted MACH2CAS (its equations are C20). is50or60's nearest-vector arbitration goes through numpy (NaN, linalg.norm, nanargmin) and is only checked bounded. Known finding F15 (is50 ignores the roll sign bit) is excluded by its region. Frame condition for is60 / is40 / is20: the verdict is unchanged by an earlier call on the same payload under another header (two-call obligation; DESIGN A8).",
       ref="DESIGN.md section 5 C12"),
  "C13": dict(cat="proof", tech=TECH % "z3 + exhaustive table evaluation (uncertainty tables)",
       text="All TC28/TC29 (subtype 0 and 1)/TC31 field decoders are proved against DO-260B bit ranges for every frame; NUCp/NIC/NAC/SIL look-ups are proved total on their domain (TC x supplement x version) with RuntimeError outside it; table monotonicity by exhaustive evaluation. Known finding F16 (horizontal_mode bit range, medium-confidence oracle) is excluded by its region predicate.",
